@@ -97,10 +97,20 @@ def run_case(case: dict) -> dict:
             ev.append({"e": "foreign", "id": msg.arbitration_id, "d": B(msg.data)})
             return
         q = bytes(msg.data)
-        r = server.on_request(q)
-        rec = {"e": "x", "q": B(q), "r": [B(f) for f in r], "fault": "none"}
-        dlv = list(r)
         f = state["fault"]
+        if f is not None and f["step"] == state["x"] and not f.get("used") and f["kind"] in ("abort", "refuse") \
+                and len(q) == 8 and q[0] != 0x80:
+            # the server answers this request with an abort (it does not execute it)
+            server.ph = "idle"
+            r = [struct.pack("<BHBL", 0x80, *struct.unpack_from("<HB", q, 1), f["code"])]
+            f["used"] = True
+            ev.append({"e": "x", "q": B(q), "r": [B(r[0])], "fault": f["kind"], "dlv": [B(r[0])]})
+            state["x"] += 1
+            deliver(r[0])
+            return
+        r = server.on_request(q)
+        rec = {"e": "x", "q": B(q), "r": [B(f2) for f2 in r], "fault": "none"}
+        dlv = list(r)
         if f is not None and f["step"] == state["x"] and not f.get("used"):
             kind = f["kind"]
             applied = True
@@ -111,8 +121,8 @@ def run_case(case: dict) -> dict:
                 state["late"] = list(r)
             elif kind == "dup" and r:
                 dlv = [r[0], r[0]]
-            elif kind in ("abort", "refuse") and r:
-                dlv = [struct.pack("<BHBL", 0x80, *struct.unpack_from("<HB", q, 1), f["code"])]
+            elif kind == "muxsub" and r and (r[0][0] >> 5) in (2, 3):
+                dlv = [r[0][:3] + bytes([r[0][3] ^ 1]) + r[0][4:]]
             elif kind == "toggle" and r and (r[0][0] >> 5) in (0, 1) and r[0][0] != 0x80:
                 dlv = [bytes([r[0][0] ^ 0x10]) + r[0][1:]]
             elif kind == "cs" and r:
